@@ -116,6 +116,7 @@ func VH_C09_Stack(p []int) {
 	}
 	verifAssert(h.stack == s.stack, "handle-unchanged")
 	vhAssertNodeSame(before, after, "unchanged")
+	vhAssertUnlocked(s, "after-call")
 	// clearing the flag restores mutability with the state as it was
 	s.SetReadOnly(false)
 	cleared := vhSnapDeep(s, 0)
@@ -203,6 +204,8 @@ func VH_C09_AsArgument(p []int) {
 	h := other
 	m.callS(&h)
 	vhAssertNodeSame(before, vhSnapDeep(ro, 0), "read-only-argument-unchanged")
+	vhAssertUnlocked(ro, "argument")
+	vhAssertUnlocked(other, "receiver")
 	verifReach("end")
 }
 
@@ -237,5 +240,7 @@ func VH_C09_NestedUnderParent(p []int) {
 	h := parent
 	m.callS(&h)
 	vhAssertNodeSame(before, vhSnapDeep(ro, 0), "read-only-descendant-unchanged")
+	vhAssertUnlocked(ro, "descendant")
+	vhAssertUnlocked(parent, "parent")
 	verifReach("end")
 }
